@@ -223,6 +223,8 @@ class C06(runner.Check):
       res.bump('op.' + kind)
       fault_now = '+'.join(sorted([k for k, v in factory.fired.items() if v > fired_map0.get(k, 0)]
                                   + ['net:' + k for k, v in dep.net.fired.items() if v > net_map0.get(k, 0)])) or 'none'
+      # the algorithm call itself failed in this call: it raised, or its request / response was lost in transit
+      raised_now = any(k.startswith('raise:') or k.startswith('net:') for k in fault_now.split('+'))
       classes.append((kind, out[0] if out[0] == 'ok' else out[1], bool(fired_now)))
       res.log.append([O.jsonable(c), O.jsonable(out), fired_now, reached])
       if fired_now:
@@ -264,10 +266,16 @@ class C06(runner.Check):
             viol.append(('error-without-fault', f'{kind} by {w}: operation error {opn["error"]} though no fault fired'))
           if opn['error'] and deployment != 'local':
             res.bump('probe.remote-pythia-error-op')
+          if raised_now and opn['done'] and not opn['error']:
+            viol.append(('algorithm-failure-not-reported',
+                         f'{kind} by {w}: the algorithm call failed ({fault_now}) but the operation is done without an error ({len(opn["trials"])} trials for n={n})'))
           if fired_now and opn['done'] and not opn['error']:
             delivered_short = len(opn['trials']) < n
             if delivered_short:
               res.bump('probe.short-delivery')
+        if kind == 'ClientSuggest' and out[0] == 'ok' and raised_now:
+          viol.append(('algorithm-failure-not-reported',
+                       f'client suggest by {w}: the algorithm call failed ({fault_now}) but the client returned {len(out[2])} trials without raising'))
         if kind == 'ClientSuggest' and out[0] == 'ok' and not fired_now and len(out[2]) != n:
           viol.append(('no-result-without-fault', f'client suggest by {w}: {len(out[2])} trials for n={n}'))
         if kind == 'ClientSuggest' and out[0] == 'err' and not fired_now and not hang:
@@ -296,6 +304,9 @@ class C06(runner.Check):
             viol.append(('early-stop-algorithm-not-reached', f'CheckES trial {c["trial"]}: {must} but the algorithm was not invoked; outcome {out[:2]}'))
           if fired_now:
             res.bump('probe.early-stop-fault-fired')
+          if raised_now and out[0] == 'ok':
+            viol.append(('algorithm-failure-not-reported',
+                         f'CheckES trial {c["trial"]}: the algorithm call failed ({fault_now}) but the call returned {out[:2]}'))
           if not fired_now and must and out[0] != 'ok':
             viol.append(('early-stop-error-without-fault', f'CheckES trial {c["trial"]}: {out[:2]}'))
 
